@@ -140,7 +140,8 @@ def _slice_inner(slize: Slice) -> SliceInner:
 
 
 def _get_inner(slice: Slice) -> SliceInner:
-    """Get a slice's `SliceInner`, calculating it inline if necessary"""
-    if slice._inner is None:
-        slice._inner = _slice_inner(slice)
+    """Get a slice's `SliceInner`.
+    Calculated on each call: the parent's `width` is a public field which may have been edited since the last one,
+    and an index that was in range then need not be in range now."""
+    slice._inner = _slice_inner(slice)
     return slice._inner
